@@ -61,3 +61,7 @@ package verify
 //@   ensures[C02] err == nil ==> attestation != nil && attestation.Report != nil && len(attestation.Report.Measurement) == 48
 //@   ensures[C02] err == nil ==> exists(g, *epb.VMGoldenMeasurement, g != nil && pbok[g] && snpEndorsed(g, ite(old(opts.SNP) == nil, 0, old(opts.SNP.ExpectedLaunchVMSAs)), val(attestation.Report.Measurement), false))
 //@   assigns[C09] nothing
+
+//@ func GCETcbURL
+//@   assigns nothing
+//@   ensures[C16] result == tcbURL(objectName)
